@@ -34,6 +34,7 @@ func (e *Engine) verifyFunc(key string) (res *FuncResult) {
 	x := &Exec{eng: e, vc: vc, c: c, top: fi, typedSeen: map[*Term]bool{}, symMark: vc.symMark,
 		inlined: map[string]bool{}, used: map[string]bool{}, wfSeen: map[[2]*Term]bool{}, allocSeen: map[[2]*Term]bool{}}
 	x.bv = c.Mode == "bv"
+	e.curMode = c.Mode
 	x.overflow = c.Overflow
 	x.safety = c.Safety
 	defer func() {
